@@ -937,6 +937,7 @@ type Frame struct {
 }
 
 type pendingFail struct {
+	record *RecordFailSpec // nil: fail-stop; else: the failure must be recorded in an accumulator
 	site  string
 	props []string
 	err   Term // the error result (sort Any)
